@@ -2,14 +2,30 @@
    Only statements here; proofs live in ParamsProofs.v.  Gen.ParamsGen is regenerated from
    /repo/src/pygom/model/base_ode_model.py on every run. *)
 From Coq Require Import List ZArith.
-From PV Require Import Params ParamsProofs Gen.ParamsGen.
+From PV Require Import Params ParamsProofs ParamsAtomic Gen.ParamsGen.
 Import ListNotations.
 
 (* facts extracted from the current source of the `parameters` setter *)
 Theorem C09_code_facts :
   translator_ok = true /\ dict_branch_aliases = false /\
-  pairs_key_index = 0%nat /\ pairs_value_index = 1%nat /\ rebuild_loop_is_canonical = true.
+  pairs_key_index = 0%nat /\ pairs_value_index = 1%nat /\ rebuild_loop_is_canonical = true /\
+  commit_is_atomic = true.
 Proof. vm_compute. repeat split. Qed.
+
+(* names that `_extractParamSymbol` accepts but that are not parameters (state names, t) reach the rebuild loop; with the
+   extracted commit order the setter refined with that acceptance test (ParamsAtomic.step_f) is, on every history, the
+   setter the theorems below are about: such names are rejected and change nothing *)
+Theorem C09_commit_atomic : forall decl known ops,
+  fold_left (fun st o => fst (step_f decl known commit_is_atomic st o)) ops (init decl) =
+  fold_left (fun st o => fst (step decl false st o)) ops (init decl).
+Proof. intros. apply trace_f_atomic; reflexivity. Qed.
+Print Assumptions C09_commit_atomic.
+
+(* the pinned order (store, then resolve names) violates the statement: witness replayed on pygom *)
+Theorem C09_nonatomic_refuted :
+  bound [0%nat] (na_run false) 0%nat = 0%Z /\ bound [0%nat] (na_run true) 0%nat = 904%Z.
+Proof. split; [exact (proj1 nonatomic_refuted)|exact atomic_witness_ok]. Qed.
+Print Assumptions C09_nonatomic_refuted.
 
 (* every history of assignments — accepted or rejected, positional / pairs / dict / partial dict, in
    any order — leaves each declared parameter bound to the value the specification map holds *)
